@@ -118,6 +118,9 @@ def _plane_obj(lentil, st, lam, N):
         o = opd['v'] * unit
     mk = st['mask']
     m = None if mk['k'] == 'none' else np.array(mk['m'])
+    if st.get('mask_scalar') is not None:
+        # the specification's all-ones mask is written as a scalar for the library (mask=1, mask=True, ...)
+        m = st['mask_scalar']
     px = None if st['px'] == [] else (float(rf(st['px'][0])), float(rf(st['px'][1])))
     cls = st['cls']
     # arrays may reach the library in any memory layout: Fortran order, a transposed view, a strided view of a larger buffer
